@@ -25,10 +25,14 @@ Fval(k, n, scale, shift) == scale * (SumTo(n, LAMBDA i : A(k, i) * X(i)) + SumTo
 Mat(m, n, e(_, _)) == [q \in 1..(m * n) |-> e(((q - 1) \div n) + 1, ((q - 1) % n) + 1)]
 Vec(n, e(_)) == [q \in 1..n |-> e(q)]
 
+\* operators of operators: the *secondary* outputs of an operator (the auxiliary value of grad_and_aux, the value of value_and_grad,
+\* the primal handed back by make_vjp / make_jvp) are still functions of x when the operator is called inside another differentiation,
+\* so an outer Jacobian / JVP taken through them is the ground-truth Jacobian again
+ThruOps == {"jac_thru_aux", "jac_thru_value", "jac_thru_vjp_primal", "jvp_thru_jvp_primal", "jvp_thru_aux", "grad_thru_aux_and_grad"}
 Ops == {"jacobian", "grad", "elementwise_grad", "hessian", "hessian_vector_product", "hessian_tensor_product", "tensor_jacobian_product",
         "vector_jacobian_product", "make_ggnvp", "deriv", "make_jvp", "make_jvp_reversemode", "value_and_grad", "grad_and_aux",
         "make_vjp", "holomorphic_grad", "grad_named", "multigrad_dict", "make_hvp", "jacobian_of_jacobian",
-        "grad_tuple", "grad_list", "value_and_grad_tuple", "make_vjp_tuple"}
+        "grad_tuple", "grad_list", "value_and_grad_tuple", "make_vjp_tuple"} \cup ThruOps
 \* container-valued argnum: the function gets a second differentiated argument y of shape (2,) that enters as  + <C, y>  with
 \* C = (3, -2); the operator returns a tuple (grad wrt x, grad wrt y); expected flat = J(1, .) ++ C
 CVec == <<3, -2>>
@@ -38,6 +42,7 @@ Applicable(op, ins, outs) ==
   CASE op \in {"grad_tuple", "grad_list", "value_and_grad_tuple", "make_vjp_tuple"} -> outs = <<>>
     [] op \in {"grad", "hessian", "hessian_vector_product", "hessian_tensor_product", "value_and_grad", "grad_and_aux", "grad_named", "multigrad_dict",
                "make_hvp", "holomorphic_grad"} -> outs = <<>>
+    [] op \in {"jac_thru_value", "grad_thru_aux_and_grad"} -> outs = <<>>
     [] op = "deriv" -> ins = <<>>
     [] op = "make_ggnvp" -> Len(outs) = 1          \* the default g reduces over the last axis only
     [] op = "elementwise_grad" -> TRUE
@@ -48,7 +53,11 @@ Applicable(op, ins, outs) ==
 Expected(op, ins, outs, scale) ==
   LET n == Size(ins)  m == Size(outs)
       J(k, i) == Jac(k, i, n, scale)
-  IN CASE op \in {"jacobian"} -> [shape |-> outs \o ins, flat |-> Mat(m, n, J)]
+  IN CASE op \in {"jacobian", "jac_thru_aux", "jac_thru_vjp_primal"} -> [shape |-> outs \o ins, flat |-> Mat(m, n, J)]
+       [] op = "jac_thru_value" -> [shape |-> ins, flat |-> Vec(n, LAMBDA i : J(1, i))]
+       [] op \in {"jvp_thru_jvp_primal", "jvp_thru_aux"} -> [shape |-> outs, flat |-> Vec(m, LAMBDA k : SumTo(n, LAMBDA i : J(k, i) * V(i)))]
+       \* d/dx [ <V, grad f(x)> + 2 aux(x) ]  with aux = f :   H V + 2 J
+       [] op = "grad_thru_aux_and_grad" -> [shape |-> ins, flat |-> Vec(n, LAMBDA i : SumTo(n, LAMBDA j : Hes(1, i, j, scale) * V(j)) + 2 * J(1, i))]
        [] op \in {"grad_tuple", "grad_list", "value_and_grad_tuple", "make_vjp_tuple"} ->
             [shape |-> <<n + 2>>, flat |-> Vec(n, LAMBDA i : J(1, i)) \o CVec]
        [] op \in {"grad", "value_and_grad", "grad_and_aux", "grad_named", "multigrad_dict", "holomorphic_grad"} ->
